@@ -3,7 +3,7 @@
    evaluates on the SOURCE documents and the IMPLEMENTATION's output (never on the model's output).
    Only the data types of Model.RefOrder (doc, ref, matches) are shared with the model. *)
 From Coq Require Import NArith List Bool Arith Relations Permutation.
-From PS Require Import Base.Chars Model.RefOrder.
+From PS Require Import Base.Chars Base.Outcome Model.RefOrder.
 Import ListNotations.
 Local Open Scope nat_scope.
 
@@ -30,10 +30,17 @@ Definition ids (ds : list doc) : list str :=
 Definition unique_keys (ds : list doc) : Prop := NoDup (names ds) /\ NoDup (ids ds).
 
 (* c refers to d: one of c's reference strings is d's name / id *)
-Definition refers_doc (ds : list doc) (d c : doc) : Prop :=
+Definition refers_doc (ds : list doc) (c d : doc) : Prop :=
   In c ds /\ In d ds /\ exists r, In r (doc_refs c) /\ matches r d = true.
 Definition acyclic_docs (ds : list doc) : Prop :=
   forall d, ~ clos_trans doc (refers_doc ds) d d.
+
+(* the emitted queries, tagged with the document (resp. its title) instead of its position *)
+Definition no_doc : doc := {| d_title := []; d_name := None; d_id := None; d_body := Plain [] |}.
+Definition by_doc {Q} (ds : list doc) (em : list (nat * Q)) : list (doc * Q) :=
+  map (fun iq => (nth (fst iq) ds no_doc, snd iq)) em.
+Definition by_title {Q} (ds : list doc) (em : list (nat * Q)) : list (str * Q) :=
+  map (fun iq => (d_title (nth (fst iq) ds no_doc), snd iq)) em.
 
 (* a reference nobody answers to *)
 Definition dangling (ds : list doc) (r : ref) : Prop := forall d, In d ds -> matches r d = false.
@@ -137,3 +144,12 @@ Definition emission_of (ds : list doc) (i : nat) : emission :=
 (* correlation rule k (asking for generation or not: g) refers to rule i *)
 Definition referrer (ds : list doc) (rr : list (list nat)) (k i : nat) (g : bool) : Prop :=
   exists d, nth_error ds k = Some d /\ is_corr d = true /\ doc_generate d = g /\ In i (nth k rr []).
+
+(* two runs of the pipeline on two orders p, ds of the same documents agree: both fail with the same
+   error, or both succeed and emit the same multiset of (document, query) *)
+Definition same_outcome {Q} (p ds : list doc) (a b : Outcome.outcome (converted Q)) : Prop :=
+  match a, b with
+  | Outcome.Ok c', Outcome.Ok c => Permutation (by_doc p (c_emitted c')) (by_doc ds (c_emitted c))
+  | Outcome.SigmaErr e', Outcome.SigmaErr e => e' = e
+  | _, _ => False
+  end.
